@@ -217,6 +217,12 @@ function multiFileProjects() {
       for (let j = i + 1; j < comps.length; j++) add(`semantic-recursion-pair-${i}-${j}`, { "entry.ts": `${decls}type X = ${comps[i]};\ntype Y = ${comps[j]};\nexport const P = parse.buildParsers<{ X: X, Y: Y }>();` }, { valid: true });
     add("semantic-recursion-all", { "entry.ts": `${decls}${comps.map((c, i) => `type X${i} = ${c};`).join("\n")}\nexport const P = parse.buildParsers<{ ${comps.map((_, i) => `X${i}: X${i}`).join(", ")} }>();` }, { valid: true });
   }
+  // type queries that refer to each other without ever reaching an initializer
+  add("typeof-cycle-declare-const", { "entry.ts": "declare const a: typeof b;\ndeclare const b: typeof a;\nexport const P = parse.buildParsers<{ U: typeof a }>();" });
+  add("typeof-self-declare-const", { "entry.ts": "declare const a: typeof a;\nexport const P = parse.buildParsers<{ U: typeof a }>();" });
+  add("typeof-self-nested-declare-const", { "entry.ts": "declare const a: { x: typeof a };\nexport const P = parse.buildParsers<{ U: typeof a }>();" });
+  add("typeof-cycle-across-files", { "entry.ts": 'import { b } from "./b";\nexport declare const a: typeof b;\nexport const P = parse.buildParsers<{ U: typeof a }>();', "b.ts": 'import { a } from "./entry";\nexport declare const b: typeof a;' });
+  add("typeof-cycle-annotated-const", { "entry.ts": "const a: typeof b = 1 as any;\nconst b: typeof a = 2 as any;\nexport const P = parse.buildParsers<{ U: typeof a }>();" });
   add("bare-module-specifier", { "entry.ts": 'import { A } from "some-package";\nexport const P = parse.buildParsers<{ A: A }>();' });
   add("import-equals", { "entry.ts": 'import A = require("./a");\nexport const P = parse.buildParsers<{ A: A }>();', "a.ts": "export type A = 1;" });
   add("namespace-merge", { "entry.ts": "interface A { a: 1 }\ninterface A { b: 2 }\nnamespace A { export type C = 3 }\nexport const P = parse.buildParsers<{ A: A, C: A.C }>();" });
